@@ -704,8 +704,19 @@ fn ut_one<F: Flavour>(sc: &UtSc, m: &Mutation, stats: &mut Stats) -> Option<Viol
         Caught::Ok(Ok(g)) => g,
     };
     stats.inc("outcome_ok_graph");
-    // a graph came back: it must be well-formed ...
-    let mut nodes: Vec<(usize, F::Node)> = F::g_iter(&g);
+    // a graph came back: it must be well-formed ... (reading it back must not fail either)
+    match caught(|| ut_check_graph::<F>(sc, m, &g, declared, stats)) {
+        Caught::Ok(r) => r,
+        Caught::Panic(msg) | Caught::Abort(msg) => Some(Violation::new(
+            "broken-graph",
+            format!("document mutated by {m:?} produced a graph that cannot be read back: {msg}"),
+        )),
+    }
+}
+
+fn ut_check_graph<F: Flavour>(sc: &UtSc, m: &Mutation, g: &F::Graph, declared: Option<Declared>, stats: &mut Stats) -> Option<Violation> {
+    let _ = sc;
+    let mut nodes: Vec<(usize, F::Node)> = F::g_iter(g);
     nodes.sort_by_key(|x| x.0);
     let keys: Vec<usize> = nodes.iter().map(|x| x.0).collect();
     // (invariant checker addresses nodes by index = key; remap through a dense world)
